@@ -131,6 +131,13 @@ def gen_breaks(rng, nc, kind, p):
     if kind == 'rawfar':       # a domain far from the origin: tolerances relative to |x| are larger than a cell
         a = rng.choice([1000.0, 1.0e4])
         return list(np.linspace(a, a + rng.choice([1.0, 6.283185307179586]), nc + 1))
+    if kind in ('rawint', 'rawintuniform'):     # whole-number breakpoints; build() hands the knots over as an integer array
+        a = rng.choice([0, -3, 5])
+        step = rng.choice([1, 2, 3])
+        c = [float(a)]
+        for _ in range(nc):
+            c.append(c[-1] + (step if kind == 'rawintuniform' else rng.randint(1, 3)))
+        return c
     if kind == 'rawuniform':
         a = rng.choice([0.0, -0.7, 2.0])
         b = a + rng.choice([1.0, 6.283185307179586, 0.37])
@@ -154,7 +161,7 @@ def gen_breaks(rng, nc, kind, p):
 
 def make_space(rng, nc, p, periodic, kind):
     """kind: nonuniform | uniform | raw | rawuniform ; uniform + degree 3 is the uniform-cubic fast path"""
-    return {'nc': nc, 'p': p, 'periodic': periodic, 'kind': kind, 'uniform': kind in ('uniform', 'rawuniform', 'rawtiny', 'rawfar'),
+    return {'nc': nc, 'p': p, 'periodic': periodic, 'kind': kind, 'uniform': kind in ('uniform', 'rawuniform', 'rawtiny', 'rawfar', 'rawintuniform'),
             'breaks': qs([ff(b) for b in gen_breaks(rng, nc, kind, p)])}
 
 
@@ -162,6 +169,9 @@ def build(spd):
     from pygyro.splines.splines import make_knots, BSplines
     br = np.array([fl(t) for t in spd['breaks'].split()])
     kn = make_knots(br, spd['p'], spd['periodic'])
+    if spd.get('kind', '').startswith('rawint'):
+        # knots that are whole numbers may reach the class as an integer array (hand-written knots, np.arange)
+        kn = kn.astype(np.int64)
     return BSplines(kn, spd['p'], spd['periodic'], spd['uniform'])
 
 
@@ -421,6 +431,8 @@ def gen_cases_1d(chk):
     for j, p in enumerate([1, 2, 4, 5] if quick else [1, 2, 3, 4, 5, 2, 4, 5]):
         combos.append((16, p, j % 4 != 3, 'rawtiny'))
         combos.append((rng.choice([96, 128]), p, j % 4 != 1, 'rawfar'))
+    for j, p in enumerate([3, 3, 1, 2, 3, 4, 5, 3]):      # integer knot arrays; degree 3 uniform is the uniform-cubic path
+        combos.append((rng.randint(max(2, p + 1), 9), p, j % 2 == 1, 'rawintuniform' if j % 3 != 2 else 'rawint'))
     for (nc, p, periodic, kind) in combos:
         spd = make_space(rng, nc, p, periodic, kind)
         n = nc if periodic else nc + p
